@@ -661,7 +661,27 @@ func (e *Enc) enterLoop(fr *Frame, li *LoopInfo, h *ssa.BasicBlock, inEdges []Te
 	// havoc
 	st := in.clone()
 	mods := e.loopMods(fr, li)
+	if mods["*heaps"] && !mods["*"] {
+		for k := range stateSorts {
+			if strings.HasPrefix(k, "HS.") || strings.HasPrefix(k, "HM.") {
+				mods[k] = true
+			}
+		}
+		for k := range st.m {
+			if strings.HasPrefix(k, "HS.") || strings.HasPrefix(k, "HM.") {
+				mods[k] = true
+			}
+		}
+	}
+	if mods["*heaps"] || mods["*"] {
+		st.epoch = e.B.freshName("ep")
+	}
+	delete(mods, "*heaps")
 	if mods["*"] {
+		for _, g := range append(append([]string{}, e.CS.GhostOrder...), "sends", "nilsends", "recvs") {
+			key, _, _ := e.ghostKey(g)
+			mods[key] = true
+		}
 		for k := range stateSorts {
 			if strings.HasPrefix(k, "HS.") || strings.HasPrefix(k, "HM.") || strings.HasPrefix(k, "ghost.") {
 				mods[k] = true
